@@ -229,6 +229,45 @@ fn gen_c06(tier: &str, rng: &mut Rng) -> Vec<Case> {
         }
         cases.push(c);
     }
+    // every row tiles the same N columns with spanning cells only (no column has a cell of its
+    // own): at narrow widths each column still gets its share
+    let ns = if tier == "thorough" { 20000 } else { 1500 };
+    let mut tokn = 900000usize;
+    for _ in 0..ns {
+        let ncols = *rng.pick(&[4usize, 6, 8, 12]);
+        let nrows = rng.range(2, 3);
+        let mut html = String::from("<table>");
+        let mut strs = Vec::new();
+        for _ in 0..nrows {
+            let parts: Vec<usize> = match rng.below(3) {
+                0 => vec![ncols / 2, ncols - ncols / 2],
+                1 if ncols % 3 == 0 => vec![ncols / 3; 3],
+                _ => {
+                    let mut v = Vec::new();
+                    let mut left = ncols;
+                    while left > 0 {
+                        let s = if left <= 3 { left } else { rng.range(2, 3) };
+                        v.push(s);
+                        left -= s;
+                    }
+                    v
+                }
+            };
+            html.push_str("<tr>");
+            let mut row = Vec::new();
+            for s in parts {
+                tokn += 1;
+                let tok = format!("t{}x", tokn);
+                html.push_str(&format!("<td colspan=\"{}\">{} {}</td>", s, tok, "word ".repeat(rng.range(0, 2)).trim_end()));
+                row.push(format!("{}:{}", s, tok));
+            }
+            html.push_str("</tr>");
+            strs.push(row.join(","));
+        }
+        html.push_str("</table>");
+        let id = cases.len();
+        cases.push(mk_case(id, 0, Cfg { deco: 1, ..Default::default() }, rng.range(6, 50), html.into_bytes(), Some(0), Meta::G { role: "table", strs, nums: vec![0] }, "span_only_columns"));
+    }
     let n = if tier == "thorough" { 20000 } else { 1500 };
     for _ in 0..n {
         let (html, toks) = tiny_table(rng);
@@ -379,7 +418,18 @@ fn check_c05(cases: &[Case], results: &[Option<RunResult>]) -> Vec<Violation> {
             continue;
         }
         if is_stacked {
-            // stacked form: full-width cells separated by '/' rules; nothing more to check here
+            // stacked form: full-width cells separated by rules: every rule ('─' or '/' line) has
+            // the same width and no cell line is wider than the rules
+            let rule_w: Vec<usize> = lines.iter().filter(|l| !l.is_empty() && (l.chars().all(|c| c == '/') || l.chars().all(|c| c == '─'))).map(|l| str_width(l)).collect();
+            if let (Some(&w0), false) = (rule_w.first(), nested) {
+                if rule_w.iter().any(|w| *w != w0) {
+                    v.push(viol(i, "stacked table: rules of different widths", lines.join("\n"), known));
+                } else {
+                    if let Some(l) = lines.iter().find(|l| str_width(l.trim_end()) > w0) {
+                        v.push(viol(i, "stacked table: a cell line is wider than the rules", format!("rules {} columns, line {:?}\n{}", w0, l, lines.join("\n")), known));
+                    }
+                }
+            }
             continue;
         }
         // first and last lines are rules
